@@ -45,6 +45,8 @@ type normalizer struct {
 	imports  map[string]map[string]string // file -> import path -> local name to add
 	seq      int
 	Notes    []string
+	handled  map[*ast.CallExpr]bool // calls already replaced by the expression-level pass
+	tail     map[ast.Stmt]bool      // statements after which their function returns
 }
 
 func declKey(pkgPath string, d *ast.FuncDecl) string {
@@ -119,6 +121,8 @@ type candidate struct {
 func (n *normalizer) normalizeOnce(pkgs []*packages.Package, overlay map[string][]byte) map[string][]byte {
 	n.edits = map[string][]normEdit{}
 	n.imports = map[string]map[string]string{}
+	n.handled = map[*ast.CallExpr]bool{}
+	n.tail = map[ast.Stmt]bool{}
 	out := map[string][]byte{}
 	for _, p := range pkgs {
 		if !(p.PkgPath == modPath || strings.HasPrefix(p.PkgPath, modPath+"/")) {
@@ -158,6 +162,7 @@ func (n *normalizer) normalizeOnce(pkgs []*packages.Package, overlay map[string]
 				if !ok || fd.Body == nil {
 					continue
 				}
+				n.exprPass(p, f, fd, cands, expanded)
 				n.walkFunc(p, f, fd, fd.Body, cands, expanded)
 			}
 		}
@@ -280,23 +285,31 @@ func (n *normalizer) inlinable(p *packages.Package, fd *ast.FuncDecl) bool {
 	return ok
 }
 
-// needsOwnFrame: the helper uses defer or recover, so it can only be expanded where it keeps a function frame of its own (defer/go).
-func needsOwnFrame(fd *ast.FuncDecl) bool {
-	own := false
+// frameUse reports whether the helper uses defer and/or recover: such a helper needs a function frame of its own,
+// except that a helper with plain defers may be expanded where the caller returns right after it.
+func frameUse(fd *ast.FuncDecl) (hasDefer, hasRecover bool) {
 	ast.Inspect(fd.Body, func(x ast.Node) bool {
 		switch y := x.(type) {
 		case *ast.FuncLit:
+			ast.Inspect(y, func(z ast.Node) bool {
+				if c, ok := z.(*ast.CallExpr); ok {
+					if id, isID := c.Fun.(*ast.Ident); isID && id.Name == "recover" {
+						hasRecover = true
+					}
+				}
+				return true
+			})
 			return false
 		case *ast.DeferStmt:
-			own = true
+			hasDefer = true
 		case *ast.CallExpr:
 			if id, isID := y.Fun.(*ast.Ident); isID && id.Name == "recover" {
-				own = true
+				hasRecover = true
 			}
 		}
 		return true
 	})
-	return own
+	return
 }
 
 // walkFunc visits every statement list of fn (and of the function literals in it).
@@ -354,6 +367,9 @@ func (n *normalizer) walkFunc(p *packages.Package, file *ast.File, fn *ast.FuncD
 			}
 			stmt(s)
 		}
+	}
+	if len(body.List) > 0 {
+		n.tail[body.List[len(body.List)-1]] = true
 	}
 	lists(body.List)
 }
@@ -444,12 +460,30 @@ func (n *normalizer) tryExpand(p *packages.Package, file *ast.File, fn *ast.Func
 	if call == nil {
 		return false
 	}
+	if n.handled[call] {
+		return false
+	}
 	cand, recvExpr := n.calleeOf(p, call, cands)
 	if cand == nil || cand.decl == fn {
 		return false
 	}
-	if kind != "defer" && kind != "go" && needsOwnFrame(cand.decl) {
-		return false
+	if kind != "defer" && kind != "go" {
+		hasDefer, hasRecover := frameUse(cand.decl)
+		if hasRecover {
+			return false
+		}
+		if hasDefer {
+			// its deferred calls would run at the caller's return instead of its own: the same moment only if the caller returns right after the call
+			namedRes := false
+			if rs := cand.decl.Type.Results; rs != nil {
+				for _, f := range rs.List {
+					namedRes = namedRes || len(f.Names) > 0
+				}
+			}
+			if namedRes || !(kind == "return" || (kind == "expr" && n.tail[s])) {
+				return false
+			}
+		}
 	}
 	sig := cand.obj.Type().(*types.Signature)
 	fileName := n.fset.Position(file.Pos()).Filename
@@ -464,7 +498,10 @@ func (n *normalizer) tryExpand(p *packages.Package, file *ast.File, fn *ast.Func
 	typeStr := func(t types.Type) string { return types.TypeString(t, qual) }
 
 	// parameters (receiver first)
-	type par struct{ name, typ, arg string }
+	type par struct {
+		name, typ, arg string
+		isConst        bool
+	}
 	var pars []par
 	if recvExpr != nil {
 		rn := "_"
@@ -485,7 +522,7 @@ func (n *normalizer) tryExpand(p *packages.Package, file *ast.File, fn *ast.Func
 				arg = "*(" + arg + ")"
 			}
 		}
-		pars = append(pars, par{rn, typeStr(sig.Recv().Type()), arg})
+		pars = append(pars, par{rn, typeStr(sig.Recv().Type()), arg, false})
 	}
 	ai := 0
 	for _, f := range cand.decl.Type.Params.List {
@@ -497,7 +534,8 @@ func (n *normalizer) tryExpand(p *packages.Package, file *ast.File, fn *ast.Func
 			if ai >= len(call.Args) {
 				return false
 			}
-			pars = append(pars, par{nm.Name, typeStr(sig.Params().At(ai).Type()), n.text(call.Args[ai])})
+			tv, hasTV := p.TypesInfo.Types[call.Args[ai]]
+			pars = append(pars, par{nm.Name, typeStr(sig.Params().At(ai).Type()), n.text(call.Args[ai]), hasTV && tv.Value != nil})
 			ai++
 		}
 	}
@@ -589,15 +627,26 @@ func (n *normalizer) tryExpand(p *packages.Package, file *ast.File, fn *ast.Func
 	}
 	b.WriteString("{\n")
 	if len(pars) > 0 {
-		var tmps, args []string
+		// arguments are evaluated once, in order, in the caller's scope; constants keep their untyped form
+		tmps := make([]string, len(pars))
+		var tl, al []string
 		for i, pr := range pars {
-			tmps = append(tmps, fmt.Sprintf("_inl%d_a%d", id, i+1))
-			args = append(args, pr.arg)
+			if pr.isConst {
+				tmps[i] = pr.arg
+				continue
+			}
+			tmps[i] = fmt.Sprintf("_inl%d_a%d", id, i+1)
+			tl = append(tl, tmps[i])
+			al = append(al, pr.arg)
 		}
-		fmt.Fprintf(&b, "%s := %s\n", strings.Join(tmps, ", "), strings.Join(args, ", "))
+		if len(tl) > 0 {
+			fmt.Fprintf(&b, "%s := %s\n", strings.Join(tl, ", "), strings.Join(al, ", "))
+		}
 		for i, pr := range pars {
 			if pr.name == "_" {
-				fmt.Fprintf(&b, "_ = %s\n", tmps[i])
+				if !pr.isConst {
+					fmt.Fprintf(&b, "_ = %s\n", tmps[i])
+				}
 				continue
 			}
 			fmt.Fprintf(&b, "var %s %s = %s\n_ = %s\n", pr.name, pr.typ, tmps[i], pr.name)
@@ -879,4 +928,165 @@ func normalizeHelpers(cfg *packages.Config, pkgs []*packages.Package, baseline m
 		cur = next
 	}
 	return cur, n.Notes
+}
+
+// singleExpr returns the expression of a helper whose body is just "return <expr>".
+func singleExpr(fd *ast.FuncDecl) ast.Expr {
+	if len(fd.Body.List) != 1 {
+		return nil
+	}
+	ret, ok := fd.Body.List[0].(*ast.ReturnStmt)
+	if !ok || len(ret.Results) != 1 {
+		return nil
+	}
+	hasLit := false
+	ast.Inspect(ret.Results[0], func(x ast.Node) bool {
+		if _, ok := x.(*ast.FuncLit); ok {
+			hasLit = true
+		}
+		return true
+	})
+	if hasLit {
+		return nil
+	}
+	return ret.Results[0]
+}
+
+func simpleArg(e ast.Expr) bool {
+	switch x := e.(type) {
+	case *ast.Ident, *ast.BasicLit:
+		return true
+	case *ast.SelectorExpr:
+		return simpleArg(x.X)
+	case *ast.ParenExpr:
+		return simpleArg(x.X)
+	case *ast.StarExpr:
+		return simpleArg(x.X)
+	case *ast.UnaryExpr:
+		return (x.Op == token.AND || x.Op == token.SUB || x.Op == token.NOT) && simpleArg(x.X)
+	case *ast.IndexExpr:
+		return simpleArg(x.X) && simpleArg(x.Index)
+	}
+	return false
+}
+
+// exprPass replaces, anywhere in fn, calls of single-expression helpers by the expression itself
+// (arguments substituted for parameters). Arguments must be free of calls, so evaluation order cannot change observably.
+func (n *normalizer) exprPass(p *packages.Package, file *ast.File, fn *ast.FuncDecl, cands map[*types.Func]*candidate, expanded map[*types.Func]int) {
+	fileName := n.fset.Position(file.Pos()).Filename
+	ast.Inspect(fn.Body, func(x ast.Node) bool {
+		call, ok := x.(*ast.CallExpr)
+		if !ok {
+			return true
+		}
+		cand, recvExpr := n.calleeOf(p, call, cands)
+		if cand == nil || cand.decl == fn {
+			return true
+		}
+		expr := singleExpr(cand.decl)
+		if expr == nil {
+			return true
+		}
+		sig := cand.obj.Type().(*types.Signature)
+		qual, addImp, okQ := n.qualifierFor(p, file, fileName)
+		if !n.namesAgree(p, file, cand, call.Pos(), addImp) {
+			return true
+		}
+		// parameter objects -> argument text
+		sub := map[types.Object]string{}
+		okArgs := true
+		bind := func(nameID *ast.Ident, want types.Type, arg ast.Expr, text string) {
+			if !simpleArg(arg) {
+				okArgs = false
+				return
+			}
+			have := p.TypesInfo.TypeOf(arg)
+			if have == nil {
+				okArgs = false
+				return
+			}
+			if !types.Identical(have, want) {
+				if tv, isConst := p.TypesInfo.Types[arg]; isConst && tv.Value != nil {
+					text = types.TypeString(want, qual) + "(" + text + ")"
+				} else {
+					okArgs = false
+					return
+				}
+			}
+			if nameID != nil && nameID.Name != "_" {
+				if obj := p.TypesInfo.Defs[nameID]; obj != nil {
+					sub[obj] = "(" + text + ")"
+				}
+			}
+		}
+		if recvExpr != nil {
+			text := n.text(recvExpr)
+			want := sig.Recv().Type()
+			have := p.TypesInfo.TypeOf(recvExpr)
+			if have != nil && !types.Identical(have, want) {
+				if _, wantPtr := want.(*types.Pointer); wantPtr {
+					text = "&" + text
+				} else {
+					text = "*" + text
+				}
+				// after the adjustment the types agree by construction of a valid method call
+				have = want
+			}
+			var nameID *ast.Ident
+			if len(cand.decl.Recv.List[0].Names) == 1 {
+				nameID = cand.decl.Recv.List[0].Names[0]
+			}
+			if !simpleArg(recvExpr) {
+				okArgs = false
+			} else if nameID != nil && nameID.Name != "_" {
+				if obj := p.TypesInfo.Defs[nameID]; obj != nil {
+					sub[obj] = "(" + text + ")"
+				}
+			}
+		}
+		ai := 0
+		for _, f := range cand.decl.Type.Params.List {
+			names := f.Names
+			if len(names) == 0 {
+				names = []*ast.Ident{nil}
+			}
+			for _, nm := range names {
+				if ai >= len(call.Args) {
+					okArgs = false
+					break
+				}
+				bind(nm, sig.Params().At(ai).Type(), call.Args[ai], n.text(call.Args[ai]))
+				ai++
+			}
+		}
+		if !okArgs || ai != len(call.Args) || !okQ() {
+			return true
+		}
+		// substitute inside the expression text
+		p0, p1 := n.fset.Position(expr.Pos()), n.fset.Position(expr.End())
+		src := n.src[p0.Filename]
+		type ed struct {
+			s, e int
+			t    string
+		}
+		var eds []ed
+		ast.Inspect(expr, func(y ast.Node) bool {
+			if id, ok := y.(*ast.Ident); ok {
+				if t, has := sub[p.TypesInfo.Uses[id]]; has {
+					a, b := n.fset.Position(id.Pos()), n.fset.Position(id.End())
+					eds = append(eds, ed{a.Offset, b.Offset, t})
+				}
+			}
+			return true
+		})
+		sort.Slice(eds, func(i, j int) bool { return eds[i].s > eds[j].s })
+		buf := append([]byte{}, src[p0.Offset:p1.Offset]...)
+		for _, e := range eds {
+			buf = append(buf[:e.s-p0.Offset], append([]byte(e.t), buf[e.e-p0.Offset:]...)...)
+		}
+		n.replace(call, "("+string(buf)+")")
+		n.handled[call] = true
+		expanded[cand.obj]++
+		return false // nested calls are handled in the next round
+	})
 }
